@@ -28,12 +28,21 @@ explicit decidable predicate on the parsed postings (Lemmas/CoherenceCore.lean).
                       decimals at their display precision            (FinX only)
      `noCostAssert`, `impliedCase = false`    AutoXact compared on the no-cost fragment only
                       (with a cost it annotates the amount with a lot, which the others do not model)
-     `noLotAmt`       no lot-annotated commodity `BASE{…}[…]` (AutoXact sorts by base symbol)
+     `noLotAmt`, `noLotCost`   unannotated commodities (`Coh.plain`: no `{` in the symbol).  C01/C02
+                      and C16 model lots (each in its own encoding), C08/C09 do not; on plain symbols
+                      `FinX.commLe` is the plain symbol order (`COH.commLe_plain`), `FinX.liftEnv` is
+                      the identity, and the lot FinX computes for a posting with a cost has the
+                      posting's commodity as base (`COH.lotBase_annotate`), which is what a row keeps
 2. with costs: the per-posting contribution to the residual and the residual
    balance per commodity agree in FinX / OF / Assert with NO guard
-   (`cost_contribution_agree`, `cost_residual_agree`); as `Value`s under the flag guards.
+   (`cost_contribution_agree`, `cost_residual_agree`); as `Value`s under the flag guards;
+   the lot a posting with a cost is annotated with agrees between FinX (`lotStep`) and
+   AutoXact (`annotateCost`) in price quantity, price commodity and base symbol
+   (`cost_lot_agree`).
 3. per-account per-commodity sums: C05 `Reports`, C08 `OF`, C17 `Regroup` denote
    the same `Coh.jsum`.
+   The four re-statements of `add_or_set_value` are one function, precision counters
+   included (`add_or_set_value_agree`, `ownBalance_is_value_sum`).
 4. every re-statement of the display-zero test is `Amount.isZero`.
 -/
 import LedgerModel.Lemmas.CoherenceCost
@@ -46,27 +55,31 @@ open Coh
 /-! ## 1. finalize: the four models -/
 
 /-- C08 refines C01/C02: on the common domain `OF.finalize` returns exactly the
-    verdict of `FinX.finalize` (no bucket, any enumeration of the hash map), the
-    rows in the same order with the posting kind forgotten.  Costs included. -/
+    verdict of `FinX.finalize` (no bucket, any enumeration of the hash map) on the
+    lifted plain transaction, the rows in the same order with the posting kind
+    forgotten (and, for a posting with a cost, the base commodity of the lot FinX
+    computes).  Costs included. -/
 theorem COH.finx_of_agree (env : PrecEnv) (enum : Balance → Balance) (henum : ∀ b, (enum b).Perm b)
     (x : Xact) (hk : noKeepAmt x.posts = true) (hvn : noVirtNull x.posts = true)
     (hco : costOtherComm x.posts = true) (hca : costHasAmount x.posts = true)
+    (hla : noLotAmt x.posts = true) (hlc : noLotCost x.posts = true)
     (hg : exchangeGuard env x.posts = true) :
     verdictOF (OF.finalize env x.date x.posts)
-      = (verdictFin (FinX.finalize env none enum x)).map (Row.toOF x.date) := by
+      = (verdictFin (FinX.finalize env none enum (FinX.LXact.ofXact x))).map (Row.toOF x.date) := by
   rw [of_eq_ref env x.date x.posts hvn]
-  exact congrArg _ (fin_eq_ref env enum henum x.posts hk hvn hco hca hg).symm
+  exact congrArg _ (finalize_eq_ref' env enum henum x hk hvn hco hca hla hlc hg).symm
 
 /-- C09 refines C01/C02 (kinds reduced to POST_VIRTUAL, rows up to order).  Costs included. -/
 theorem COH.finx_assert_agree (cx : Assert.Ctx) (enum : Balance → Balance) (henum : ∀ b, (enum b).Perm b)
     (x : Xact) (hk : noKeepAmt x.posts = true) (hkc : noKeepCost x.posts = true)
     (hvn : noVirtNull x.posts = true) (hsa : someAmount x.posts = true)
     (hco : costOtherComm x.posts = true) (hca : costHasAmount x.posts = true)
+    (hla : noLotAmt x.posts = true) (hlc : noLotCost x.posts = true)
     (hg : exchangeGuard cx.env x.posts = true) :
     (verdictAssert (Assert.finalize cx x.posts)).PermEq
-      ((verdictFin (FinX.finalize cx.env none enum x)).map Row.toAssert) := by
+      ((verdictFin (FinX.finalize cx.env none enum (FinX.LXact.ofXact x))).map Row.toAssert) := by
   have h := assert_eq_ref cx x.posts hvn hsa hkc
-  rw [← fin_eq_ref cx.env enum henum x.posts hk hvn hco hca hg] at h
+  rw [← finalize_eq_ref' cx.env enum henum x hk hvn hco hca hla hlc hg] at h
   exact h
 
 theorem COH.noCost_guards (ps : List Posting) (h : noCostAssert ps = true) :
@@ -96,10 +109,12 @@ theorem COH.finx_autoxact_agree (env : PrecEnv) (enum : Balance → Balance) (he
     (hlot : noLotAmt x.posts = true)
     (hvn : noVirtNull x.posts = true) (hsa : someAmount x.posts = true)
     (himp : impliedCase env x.posts = false) :
-    verdictAuto (AutoXact.finalize env x) = verdictFin (FinX.finalize env none enum x) := by
+    verdictAuto (AutoXact.finalize env x)
+      = verdictFin (FinX.finalize env none enum (FinX.LXact.ofXact x)) := by
   rw [auto_eq_ref env x hca hk hlot hvn hsa himp]
   obtain ⟨h1, h2⟩ := COH.noCost_guards x.posts hca
-  exact (fin_eq_ref env enum henum x.posts hk hvn h1 h2 (by unfold exchangeGuard; rw [himp]; rfl)).symm
+  exact (finalize_eq_ref' env enum henum x hk hvn h1 h2 hlot
+    (noLotCost_of_noCost x.posts (noCost_of x.posts hca)) (by unfold exchangeGuard; rw [himp]; rfl)).symm
 
 /-- C16 and C08 agree. -/
 theorem COH.autoxact_of_agree (env : PrecEnv) (x : Xact) (hca : noCostAssert x.posts = true)
@@ -152,36 +167,46 @@ theorem COH.stepX_is_finalize (st : OF.State) (x : OF.WXact) (ps : List Posting)
     display precision raised to cover them (`FinX.observe`, amount.cc 1190-1195). -/
 theorem COH.reader_amounts_exact (env : PrecEnv) (x : Xact)
     (hdec : ∀ p ∈ x.posts, ∀ a, p.amount = some a → FinX.Decimal a) :
-    ∀ p ∈ x.posts, ∀ a, p.amount = some a → FinX.Exact (FinX.observe env x) a :=
-  fun p hp a ha => FinX.exact_of_decimal _ a (hdec p hp a ha) (FinX.observe_covers env x p a hp ha)
+    ∀ p ∈ x.posts, ∀ a, p.amount = some a → FinX.Exact (FinX.observe env (FinX.LXact.ofXact x)) a :=
+  fun p hp a ha => FinX.exact_of_decimal _ a (hdec p hp a ha)
+    (FinX.observe_covers env (FinX.LXact.ofXact x) ⟨p, none⟩ a
+      (by unfold FinX.LXact.ofXact; exact List.mem_map.2 ⟨p, hp, rfl⟩) ha)
+
+/-- THE coincidence lemma behind the guard `noLotAmt`: on unannotated commodities
+    `commodity_t::compare_by_commodity` as C01/C02 models it (`FinX.commLe`: base
+    symbol, price, date, tag) is the plain order of the symbols that C08, C09 and
+    (on base symbols) C16 sort by. -/
+theorem COH.commLe_plain (a b : Comm) (ha : plain a = true) (hb : plain b = true) :
+    FinX.commLe a b = decide (a ≤ b) := Coh.commLe_plain a b ha hb
+
+/-- … and the computed lot annotation `BASE{price}[date]` has base symbol `BASE`
+    (what `rowOfFin` projects to). -/
+theorem COH.lotBase_annotate (c : Comm) (pu : Amount) (date : String) (h : plain c = true) :
+    FinX.lotBase (FinX.annotate c pu date) = c := Coh.lotBase_annotate c pu date h
 
 /-- The display precision the zero test reads is learned the same way in C16's
     journal (`PrecTable.bumpAll` over the transaction's amounts) and in C01/C02's
     (`FinX.observe`), for every commodity but the null one (which `Amount.isZero`
     never looks up); without lot annotations (C16 files a lot under its base symbol). -/
 theorem COH.prec_env_agree (t : AutoXact.PrecTable) (x : Xact) (c : Comm) (hc : c ≠ "")
-    (hcl : AutoXact.hasLot c = false) (hl : noLotAmt x.posts = true) :
-    (t.bumpAll (x.posts.filterMap (·.amount))).get c = FinX.observe t.get x c := by
-  have hl' : ∀ p ∈ x.posts, ∀ a, p.amount = some a → AutoXact.hasLot a.comm = false := by
-    intro p hp a ha
-    unfold noLotAmt at hl
-    have := List.all_eq_true.1 hl p hp
-    rw [ha] at this
-    simpa using this
-  have hbc := baseComm_of_noLot c hcl
-  unfold AutoXact.PrecTable.bumpAll FinX.observe
+    (hcl : plain c = true) (hl : noLotAmt x.posts = true) :
+    (t.bumpAll (x.posts.filterMap (·.amount))).get c = FinX.observe t.get (FinX.LXact.ofXact x) c := by
+  have hl' := noLotAmt_mem x.posts hl
+  have hbc := baseComm_of_plain c hcl
+  unfold AutoXact.PrecTable.bumpAll FinX.observe FinX.LXact.ofXact
+  simp only [List.foldl_map]
   generalize x.posts = ps at hl'
   induction ps generalizing t with
   | nil => rfl
   | cons p ps ih =>
-    have hl'' : ∀ q ∈ ps, ∀ a, q.amount = some a → AutoXact.hasLot a.comm = false :=
+    have hl'' : ∀ q ∈ ps, ∀ a, q.amount = some a → plain a.comm = true :=
       fun q hq => hl' q (List.mem_cons_of_mem _ hq)
     cases ha : p.amount with
     | none =>
       simp only [List.filterMap_cons, ha, List.foldl_cons]
       exact ih t hl''
     | some a =>
-      have hba := baseComm_of_noLot a.comm (hl' p List.mem_cons_self a ha)
+      have hba := baseComm_of_plain a.comm (hl' p List.mem_cons_self a ha)
       simp only [List.filterMap_cons, ha, List.foldl_cons]
       rw [ih _ hl'']
       congr 1
@@ -216,7 +241,7 @@ private def cx2 : Assert.Ctx := { env := env2, permissive := false }
     so do FinX and OF; AutoXact and Assert report an error. -/
 private def wAllNull : Xact := mkX [mkPost "A" .real none none]
 theorem COH.witness_all_null :
-    verdictFin (FinX.finalize env2 none id wAllNull) = .accepted [] ∧
+    verdictFin (FinX.finalize env2 none id (FinX.LXact.ofXact wAllNull)) = .accepted [] ∧
     verdictOF (OF.finalize env2 0 wAllNull.posts) = .accepted [] ∧
     verdictAuto (AutoXact.finalize env2 wAllNull) = .nullLeft ∧
     verdictAssert (Assert.finalize cx2 wAllNull.posts) = .nullLeft := by decide +kernel
@@ -227,7 +252,7 @@ theorem COH.witness_all_null :
 private def wSameComm : Xact :=
   mkX [mkPost "A" .real (some (eur 1000 2)) (some ⟨eur 100 2, true⟩), mkPost "B" .real (some (eur (-1000) 2)) none]
 theorem COH.witness_same_comm_cost :
-    FinX.finalize env2 none id wSameComm = .error .sameCommCost ∧
+    FinX.finalize env2 none id (FinX.LXact.ofXact wSameComm) = .error .sameCommCost ∧
     (OF.finalize env2 0 wSameComm.posts).toBool = true ∧
     (Assert.finalize cx2 wSameComm.posts).toBool = true := by decide +kernel
 
@@ -239,7 +264,7 @@ private def wBare : Xact :=
   mkX [mkPost "A" .real (some { q := -5, prec := 0, keep := false, comm := "BTC" }) none,
        mkPost "B" .real (some (bare 3)) none]
 theorem COH.witness_bare_implied :
-    FinX.finalize env2 none id wBare = .error .sameCommCost ∧
+    FinX.finalize env2 none id (FinX.LXact.ofXact wBare) = .error .sameCommCost ∧
     (OF.finalize env2 0 wBare.posts).toBool = true ∧
     (Assert.finalize cx2 wBare.posts).toBool = true := by decide +kernel
 
@@ -250,11 +275,11 @@ theorem COH.witness_bare_implied :
 private def wVirtNull : Xact := mkX [mkPost "A" .real (some (eur 500 2)) none, mkPost "V" .virtual none none]
 private def wVirtNull2 : Xact := mkX [mkPost "A" .real none none, mkPost "V" .virtual none none]
 theorem COH.witness_virtual_null :
-    verdictFin (FinX.finalize env2 none id wVirtNull) = .unbalanced ∧
+    verdictFin (FinX.finalize env2 none id (FinX.LXact.ofXact wVirtNull)) = .unbalanced ∧
     verdictAssert (Assert.finalize cx2 wVirtNull.posts) = .unbalanced ∧
     verdictOF (OF.finalize env2 0 wVirtNull.posts) = .nullLeft ∧
     verdictAuto (AutoXact.finalize env2 wVirtNull) = .nullLeft ∧
-    verdictFin (FinX.finalize env2 none id wVirtNull2) = .accepted [] ∧
+    verdictFin (FinX.finalize env2 none id (FinX.LXact.ofXact wVirtNull2)) = .accepted [] ∧
     verdictOF (OF.finalize env2 0 wVirtNull2.posts) = .nullLeft ∧
     verdictAuto (AutoXact.finalize env2 wVirtNull2) = .nullLeft ∧
     verdictAssert (Assert.finalize cx2 wVirtNull2.posts) = .nullLeft := by decide +kernel
@@ -265,7 +290,7 @@ theorem COH.witness_virtual_null :
 private def wKeep : Xact :=
   mkX [mkPost "A" .real (some { q := mkRat 4 1000, prec := 3, keep := true, comm := "EUR" }) none]
 theorem COH.witness_keep_flag :
-    (FinX.finalize env2 none id wKeep).toBool = true ∧
+    (FinX.finalize env2 none id (FinX.LXact.ofXact wKeep)).toBool = true ∧
     OF.finalize env2 0 wKeep.posts = .error .unbalanced := by decide +kernel
 
 /-- (`exchangeGuard`) an "amount" whose quantity is not a multiple of its own
@@ -276,7 +301,7 @@ private def wInexact : Xact :=
   mkX [mkPost "A" .real (some { q := 1, prec := 0, keep := false, comm := "AAA" }) none,
        mkPost "B" .real (some { q := mkRat 1 5, prec := 0, keep := false, comm := "BBB" }) none]
 theorem COH.witness_inexact_exchange :
-    (FinX.finalize env2 none id wInexact).toBool = true ∧
+    (FinX.finalize env2 none id (FinX.LXact.ofXact wInexact)).toBool = true ∧
     OF.finalize env2 0 wInexact.posts = .error .unbalanced ∧
     exchangeGuard env2 wInexact.posts = false := by decide +kernel
 
@@ -293,9 +318,10 @@ theorem COH.cost_contribution_agree (env : PrecEnv) (c : Comm) (p : Posting) :
     postings, the denotation of C08's `xbalance`, and the denotation of whatever
     C09's `residual` scan returns, coincide.  No guard. -/
 theorem COH.cost_residual_agree (env : PrecEnv) (x : Xact) (c : Comm) :
-    FinX.residual (x.posts.map (FinX.FPost.ofPosting env)) c = (OF.xbalance x.posts).den c ∧
+    FinX.residual ((FinX.LXact.ofXact x).posts.map (FinX.FPost.ofPosting env)) c
+      = (OF.xbalance x.posts).den c ∧
     ∀ v np, Assert.residual x.posts .void none = .ok (v, np) → v.den c = (OF.xbalance x.posts).den c := by
-  refine ⟨residual_fin_eq env x.posts c, ?_⟩
+  refine ⟨by rw [ofXact_posts]; exact residual_fin_eq env x.posts c, ?_⟩
   intro v np h
   rw [residual_assert_den c x.posts .void none v np h trivial, OF.xbalance_den]
   simp only [Value.den]; grind
@@ -305,11 +331,33 @@ theorem COH.cost_residual_agree (env : PrecEnv) (x : Xact) (c : Comm) :
     C09's scan both return C08's `xbalance`. -/
 theorem COH.cost_residual_value_agree (env : PrecEnv) (ps : List Posting) (hnull : OF.nullPosts ps = [])
     (hk : noKeepAmt ps = true) (hkc : noKeepCost ps = true) :
-    FinX.scan (ps.map (FinX.FPost.ofPosting env)) 0 .void none = .ok (OF.xbalance ps, none) ∧
+    FinX.scan (ps.map (fun p => FinX.FPost.ofPosting env ⟨p, none⟩)) 0 .void none = .ok (OF.xbalance ps, none) ∧
     Assert.residual ps .void none = .ok (OF.xbalance ps, none) := by
   refine ⟨scan_noNull' env ps hk hnull, ?_⟩
   rw [residual_none ps .void trivial hkc, hnull]
   rfl
+
+/-- The lot a posting `a @ k` is annotated with (xact.cc 334-343, pool.cc 263-309):
+    C01/C02's `lotStep` on the parsed posting and C16's `annotateCost` both keep
+    quantity and total cost, and compute a per-unit price with the same exact
+    quantity `|cost / amount|` and commodity; the annotated commodity has the
+    posting's commodity as base symbol in either encoding.  Guards: unannotated
+    commodities, amount not display-zero, cost in another commodity.  NOT equal:
+    the precision counter of the price (C01/C02: that of `amount_t` division,
+    C16: the cost's), which no report reads — the commodity key carries the exact ratio. -/
+theorem COH.cost_lot_agree (env : PrecEnv) (ds : String) (day : Int) (p : Posting) (a : Amount) (k : Cost)
+    (ha : p.amount = some a) (hk : p.cost = some k) (hz : a.isZero env = false)
+    (hpa : plain a.comm = true) (hpk : plain k.amt.comm = true) (hne : a.comm ≠ k.amt.comm) :
+    ∃ pu p1 p2,
+      FinX.lotStep env ds (FinX.FPost.ofPosting env ⟨p, none⟩) = .ok (p1, none) ∧
+      AutoXact.annotateCost env day (AutoXact.toPPost env p) = .ok p2 ∧
+      p1.amount = some { a with comm := FinX.annotate a.comm pu ds } ∧
+      p2.amount = some { a with comm := AutoXact.lotComm a.comm (autoPrice env a k) day } ∧
+      p1.cost = some (FinX.parseCost env a k) ∧ p2.cost = some (FinX.parseCost env a k) ∧
+      pu.q = (autoPrice env a k).q ∧ pu.comm = (autoPrice env a k).comm ∧
+      FinX.lotBase (FinX.annotate a.comm pu ds) = a.comm ∧
+      AutoXact.baseComm (AutoXact.lotComm a.comm (autoPrice env a k) day) = a.comm :=
+  Coh.cost_lot_agree env ds day p a k ha hk hz hpa hpk hne
 
 /-! ## 3. per-account per-commodity sums -/
 
@@ -370,6 +418,31 @@ theorem COH.grand_total_agree (j : Journal) (c : Comm) (r : Value)
   rw [hf] at h1
   rw [grandTotal_jsum j c r h]
   exact ⟨h1.symm, (sumDen_entriesOf j (fun _ => true) c).symm⟩
+
+/-- Precision counters of sums.  The four re-statements of `add_or_set_value`
+    — C08 `OF.vadd`, C09 `Assert.accAdd`, C17 `Regroup.vplus`, and `Value.add`
+    itself (C03) — are one function on VOID / AMOUNT / BALANCE: same entries, same
+    precision counters (`max`), same flags. -/
+theorem COH.add_or_set_value_agree (v : Value) (a : Amount) (h : VAB v) :
+    Value.add v (.amt a) = .ok (OF.vadd v a) ∧ Assert.accAdd v a = OF.vadd v a ∧
+    Regroup.vplus v (.amt a) = OF.vadd v a := by
+  refine ⟨add_eq_vadd v a h, accAdd_eq_vadd v a h, ?_⟩
+  unfold Regroup.vplus
+  rw [add_eq_vadd v a h]
+
+/-- … and C08's account balance (whose entries the driver now prints with their
+    precision counters, `comm~q~prec`) is literally C03's `balance_t +=` fold. -/
+theorem COH.ownBalance_is_value_sum (es : List OF.Entry) (a : String) :
+    (es.filter (fun e => e.account = a)).foldl (fun v e => Regroup.vplus v (.amt e.amt)) (.bal [])
+      = .bal (OF.ownBalance es a) := by
+  unfold OF.ownBalance
+  generalize es.filter (fun e => e.account = a) = l
+  generalize ([] : Balance) = b
+  induction l generalizing b with
+  | nil => rfl
+  | cons e l ih =>
+    simp only [List.foldl_cons]
+    exact ih (Balance.addAmt b e.amt)
 
 /-! ## 4. the display-zero test -/
 
@@ -460,10 +533,10 @@ example : noKeepAmt xFill.posts = true ∧ noKeepCost xFill.posts = true ∧ noV
     someAmount xFill.posts = true ∧ costOtherComm xFill.posts = true ∧ costHasAmount xFill.posts = true ∧
     exchangeGuard env2 xFill.posts = true ∧ noCostAssert xFill.posts = true ∧
     noLotAmt xFill.posts = true ∧ impliedCase env2 xFill.posts = false := by decide +kernel
-example : verdictFin (FinX.finalize env2 none id xFill)
+example : verdictFin (FinX.finalize env2 none id (FinX.LXact.ofXact xFill))
     = .accepted [⟨"A", .real, eur 1000 2⟩, ⟨"C", .bvirtual, usd 250 2⟩, ⟨"B", .real, (eur 1000 2).neg⟩,
                  ⟨"B", .real, (usd 250 2).neg⟩] := by decide +kernel
-example : verdictAuto (AutoXact.finalize env2 xFill) = verdictFin (FinX.finalize env2 none id xFill) := by
+example : verdictAuto (AutoXact.finalize env2 xFill) = verdictFin (FinX.finalize env2 none id (FinX.LXact.ofXact xFill)) := by
   decide +kernel
 
 /-- the implied exchange: guards hold (`exchangeGuard` through `exactAmts`), opposite signs accepted -/
@@ -471,11 +544,11 @@ private def xImplied : Xact :=
   mkX [mkPost "A" .real (some (eur 1000 2)) none, mkPost "B" .real (some (usd (-1234) 2)) none]
 example : impliedCase env2 xImplied.posts = true ∧ exchangeGuard env2 xImplied.posts = true ∧
     noKeepAmt xImplied.posts = true ∧ noVirtNull xImplied.posts = true := by decide +kernel
-example : (verdictFin (FinX.finalize env2 none id xImplied)).map (Row.toOF 18000)
+example : (verdictFin (FinX.finalize env2 none id (FinX.LXact.ofXact xImplied))).map (Row.toOF 18000)
     = verdictOF (OF.finalize env2 18000 xImplied.posts) := by decide +kernel
 /-- same signs: unbalanced everywhere -/
-example : verdictFin (FinX.finalize env2 none id
-    (mkX [mkPost "A" .real (some (eur 1000 2)) none, mkPost "B" .real (some (usd 1234 2)) none])) = .unbalanced := by
+example : verdictFin (FinX.finalize env2 none id (FinX.LXact.ofXact
+    (mkX [mkPost "A" .real (some (eur 1000 2)) none, mkPost "B" .real (some (usd 1234 2)) none]))) = .unbalanced := by
   decide +kernel
 
 /-- a cost: `3 XX @ 0.333 USD` against `-1.00 USD`, residual -0.001 displays as zero: FinX, OF, Assert accept -/
@@ -485,13 +558,13 @@ private def xCost : Xact :=
 example : noKeepAmt xCost.posts = true ∧ noKeepCost xCost.posts = true ∧ costOtherComm xCost.posts = true ∧
     costHasAmount xCost.posts = true ∧ exchangeGuard env2 xCost.posts = true ∧
     noVirtNull xCost.posts = true ∧ someAmount xCost.posts = true := by decide +kernel
-example : (FinX.finalize env2 none id xCost).toBool = true ∧ (OF.finalize env2 0 xCost.posts).toBool = true ∧
+example : (FinX.finalize env2 none id (FinX.LXact.ofXact xCost)).toBool = true ∧ (OF.finalize env2 0 xCost.posts).toBool = true ∧
     (Assert.finalize cx2 xCost.posts).toBool = true := by decide +kernel
 
 /-- two elided postings: the two-nulls verdict in all four -/
 private def xTwo : Xact :=
   mkX [mkPost "A" .real (some (eur 1000 2)) none, mkPost "B" .real none none, mkPost "C" .real none none]
-example : verdictFin (FinX.finalize env2 none id xTwo) = .twoNulls ∧
+example : verdictFin (FinX.finalize env2 none id (FinX.LXact.ofXact xTwo)) = .twoNulls ∧
     verdictAuto (AutoXact.finalize env2 xTwo) = .twoNulls ∧
     verdictOF (OF.finalize env2 0 xTwo.posts) = .twoNulls ∧
     verdictAssert (Assert.finalize cx2 xTwo.posts) = .twoNulls := by decide +kernel
